@@ -294,7 +294,11 @@ class Point(HyperbolicObject, projective.Point):
         if proj_data is not None:
             self.set(proj_data, **kwargs)
 
-        return hyperboloid_coords(self.proj_data)
+        # hyperboloid_coords normalizes its argument in place: hand it
+        # a copy, so that reading coordinates does not rescale the data
+        # stored in this object row by row (a tangent vector would lose
+        # its length, and two reads could differ in the last digits)
+        return hyperboloid_coords(np.array(self.proj_data))
 
     def poincare_coords(self, proj_data=None, **kwargs):
         """Get or set point coordinates in the hyperboloid model.
